@@ -58,7 +58,7 @@ func c06op(g *hgen) Val {
 	case 3:
 		return Val{K: "uop", S: []string{"~=", "has", "=>"}[r.Intn(3)]}
 	case 4:
-		return vOp([]int{0, 7, 200}[r.Intn(3)])
+		return vOp([]int{0, 7, 200, 9, 12, 14, 255, 8}[r.Intn(8)])
 	case 5:
 		if r.Bool(0.5) {
 			return Val{K: "fop", S: "f" + itoa(r.Intn(2))}
